@@ -286,7 +286,7 @@ func (*log).Consume
     ensures[newest]  offset == message.OffsetNewest && err == nil ==> ret0 == logNext(l) && len(ret1) == 0
     ensures[beyond]  offset > logNext(l) ==> err != nil && (is(err, message.ErrInvalidOffset) || ioerr(err))
     ensures[ok]      offset <= logNext(l) ==> err == nil || ioerr(err)
-    ensures[sorted]  err == nil ==> forall j :: 0 <= j && j < len(ret1) - 1 ==> ret1[j].Offset < ret1[j+1].Offset
+    ensures[sorted]  err == nil ==> forall i, j :: 0 <= i && i < j && j < len(ret1) ==> ret1[i].Offset < ret1[j].Offset
     ensures[count]   err == nil ==> len(ret1) <= maxCount
     ensures[next]    err == nil && len(ret1) > 0 ==> ret0 == ret1[len(ret1)-1].Offset + 1
     ensures[caughtup] err == nil && len(ret1) == 0 ==> ret0 == logNext(l)
@@ -440,5 +440,168 @@ lemma cursorStep(l *log, c int64, first int64, last int64, o int64)
     requires forall p int64 :: live(l, p) && c <= p ==> first <= p      // nogap_first
     requires o < last + 1 && !(o < c) && first <= last
     ensures  first <= o && o <= last
+
+
+// ================================================================ the Log interface, abstractly (C15, C16, C12)
+// The trim / compaction helpers are written against the Log INTERFACE. They are proved
+// against these interface contracts (the statements of C03/C04/C10/C12 over an abstract
+// set of live offsets), i.e. for every conforming log.
+
+ghost var gLive map[Log]map[int64]bool        // live offsets
+ghost var gNext map[Log]int64                 // NextOffset
+ghost var gMicro map[Log]map[int64]int64      // time (microseconds) of a live offset
+ghost var gSize map[Log]map[int64]int64       // Size() of the message at a live offset
+ghost var gKey map[Log]map[int64]bseq         // key bytes of a live offset
+ghost var gHasValue map[Log]map[int64]bool    // message at that offset has a (non-nil) value
+ghost var gCount map[Log]int                  // number of live messages
+ghost var gTotal map[Log]int64                // total size reported by Stat
+
+pred absWf(l Log) :=
+    gNext[l] >= 0 && (forall o int64 :: gLive[l][o] ==> 0 <= o && o < gNext[l])
+    && gCount[l] == card(gLive[l]) && gCount[l] >= 0
+
+// s is a prefix of the live sequence: only live offsets, and with an offset every smaller live one
+pred livePrefix(l Log, s map[int64]struct{}) :=
+    (forall o int64 :: has(s, o) ==> gLive[l][o])
+    && (forall o int64, p int64 :: has(s, o) && gLive[l][p] && p < o ==> has(s, p))
+
+// message m is the live message at its offset
+pred isLiveMsg(l Log, m message.Message) :=
+    gLive[l][m.Offset] && micro(m.Time) == gMicro[l][m.Offset] && bseq(m.Key) == gKey[l][m.Offset]
+    && ((m.Value != nil) <==> gHasValue[l][m.Offset])
+
+iface Log.NextOffset
+    requires absWf(self)
+    ensures err == nil ==> ret0 == gNext[self]
+
+iface Log.Consume
+    requires absWf(self) && maxCount >= 1
+    ensures[sorted]  err == nil ==> forall i, j :: 0 <= i && i < j && j < len(ret1) ==> ret1[i].Offset < ret1[j].Offset
+    ensures[count]   err == nil ==> len(ret1) <= maxCount
+    ensures[live]    err == nil ==> forall j :: 0 <= j && j < len(ret1) ==> isLiveMsg(self, ret1[j])
+    ensures[from]    err == nil && !relative(offset) ==> forall j :: 0 <= j && j < len(ret1) ==> ret1[j].Offset >= offset
+    ensures[next]    err == nil && len(ret1) > 0 ==> ret0 == ret1[len(ret1)-1].Offset + 1
+    ensures[caughtup] err == nil && len(ret1) == 0 ==> ret0 == gNext[self]
+    ensures[nogap_first]  err == nil && len(ret1) > 0 && !relative(offset) ==> forall o int64 :: gLive[self][o] && offset <= o ==> ret1[0].Offset <= o
+    ensures[nogap_oldest] err == nil && len(ret1) > 0 && offset == message.OffsetOldest ==> forall o int64 :: gLive[self][o] ==> ret1[0].Offset <= o
+    ensures[nogap_run]    err == nil ==> forall j, o int64 :: 0 <= j && j < len(ret1) - 1 && gLive[self][o] && ret1[j].Offset < o ==> ret1[j+1].Offset <= o
+    ensures[nogap_empty]  err == nil && len(ret1) == 0 && !relative(offset) ==> forall o int64 :: gLive[self][o] ==> o < offset
+    ensures[empty_log]    err == nil && len(ret1) == 0 && offset == message.OffsetOldest ==> forall o int64 :: !gLive[self][o]
+
+// ---------------------------------------------------------------- FindByOffset (C15)
+
+func FindByOffset
+    requires absWf(l)
+    ensures[oldest] before == message.OffsetOldest ==> err == nil && (forall o int64 :: !has(ret0, o))
+    // exactly the live offsets below the bound (OffsetNewest: below NextOffset)
+    ensures[exact]  err == nil && before != message.OffsetOldest ==>
+                        forall o int64 :: has(ret0, o) <==> gLive[l][o] && o < ite(before == message.OffsetNewest, gNext[l], before)
+    ensures[nonnil] err == nil ==> ret0 != nil
+    loop 1
+      invariant[bound]  before == ite(old(before) == message.OffsetNewest, gNext[l], old(before)) && maxOffset == min(gNext[l], before)
+      invariant[nonnil] offsets != nil && old(before) != message.OffsetOldest
+      invariant[cursor] offset == message.OffsetOldest || offset >= 0
+      invariant[set]    forall o int64 :: has(offsets, o) <==> gLive[l][o] && o < before && offset != message.OffsetOldest && o < offset
+    loop 2
+      invariant[idx]    -1 <= rangeindex && rangeindex < len(msgs)
+      invariant[nonnil] offsets != nil
+      invariant[set]    forall o int64 :: has(offsets, o) <==> gLive[l][o] && o < before
+                            && o < ite(rangeindex + 1 < len(msgs), msgs[rangeindex+1].Offset, offset)
+
+
+// ---------------------------------------------------------------- FindByCount (C15)
+
+iface Log.Stat
+    requires absWf(self)
+    ensures err == nil ==> ret0.Messages == gCount[self] && ret0.Size == gTotal[self]
+
+func FindByCount
+    requires absWf(l)
+    ensures[none]   gCount[l] <= max && err == nil ==> ret0 == nil
+    ensures[prefix] err == nil && ret0 != nil ==> livePrefix(l, ret0)
+    // exactly as many as needed to leave `max` messages
+    ensures[count]  err == nil && gCount[l] > max && max >= 0 ==> ret0 != nil && len(ret0) == gCount[l] - max
+    loop 1
+      invariant[nonnil]  offsets != nil && gCount[l] > max && maxOffset == gNext[l]
+      invariant[cursor]  offset == message.OffsetOldest || offset >= 0
+      invariant[budget]  toRemove >= 0 && len(offsets) + toRemove == gCount[l] - max
+      invariant[prefix]  livePrefix(l, offsets)
+      invariant[set]     toRemove > 0 ==> (forall o int64 :: has(offsets, o) <==> gLive[l][o] && offset != message.OffsetOldest && o < offset)
+    loop 2
+      invariant[idx]     -1 <= rangeindex && rangeindex < len(msgs)
+      invariant[nonnil]  offsets != nil
+      invariant[budget]  toRemove > 0 && len(offsets) + toRemove == gCount[l] - max
+      invariant[set]     forall o int64 :: has(offsets, o) <==> gLive[l][o]
+                             && o < ite(rangeindex + 1 < len(msgs), msgs[rangeindex+1].Offset, offset)
+
+// ---------------------------------------------------------------- FindByAge (C15)
+
+// C10 over the abstract log: first live message at or after the time
+iface Log.OffsetByTime
+    requires absWf(self)
+    ensures[hit]      err == nil ==> gLive[self][ret0] && gMicro[self][ret0] >= micro(start)
+    ensures[minimal]  err == nil ==> forall o int64 :: gLive[self][o] && gMicro[self][o] >= micro(start) ==> ret0 <= o
+    ensures[notfound] is(err, ErrNotFound) ==> forall o int64 :: gLive[self][o] ==> gMicro[self][o] < micro(start)
+
+// message times never decrease with offset
+pred absMono(l Log) :=
+    forall o int64, p int64 :: gLive[l][o] && gLive[l][p] && o < p ==> gMicro[l][o] <= gMicro[l][p]
+
+func FindByAge
+    requires absWf(l)
+    ensures[prefix]   err == nil ==> ret0 != nil && livePrefix(l, ret0)
+    // nothing newer than the given time is selected
+    ensures[notnewer] err == nil ==> forall o int64 :: has(ret0, o) ==> gMicro[l][o] <= micro(before)
+    // with non-decreasing times nothing older is left
+    ensures[noneolder] err == nil && absMono(l) ==> forall o int64 :: gLive[l][o] && gMicro[l][o] < micro(before) ==> has(ret0, o)
+    loop 1
+      invariant[nonnil]  offsets != nil && maxOffset <= gNext[l]
+      invariant[bound]   absMono(l) ==> (forall o int64 :: gLive[l][o] && maxOffset <= o ==> gMicro[l][o] >= micro(before))
+      invariant[cursor]  offset == message.OffsetOldest || offset >= 0
+      invariant[notnewer] forall o int64 :: has(offsets, o) ==> gMicro[l][o] <= micro(before)
+      invariant[set]     forall o int64 :: has(offsets, o) <==> gLive[l][o] && offset != message.OffsetOldest && o < offset
+    loop 2
+      invariant[idx]     -1 <= rangeindex && rangeindex < len(msgs)
+      invariant[nonnil]  offsets != nil
+      invariant[notnewer] forall o int64 :: has(offsets, o) ==> gMicro[l][o] <= micro(before)
+      invariant[set]     forall o int64 :: has(offsets, o) <==> gLive[l][o]
+                             && o < ite(rangeindex + 1 < len(msgs), msgs[rangeindex+1].Offset, offset)
+
+
+// ---------------------------------------------------------------- FindBySize (C15)
+
+iface Log.Size
+    ensures gLive[self][m.Offset] ==> ret0 == gSize[self][m.Offset]
+
+// sum of the sizes of a set of offsets (defined by its step equation)
+spec sumSize(l Log, s map[int64]bool) int64
+    ensures (forall o int64 :: !s[o]) ==> result == 0
+    ensures forall o int64 :: !s[o] ==> sumSize(l, s[o := true]) == result + gSize[l][o]
+
+func FindBySize
+    requires absWf(l)
+    ensures[none]    gTotal[l] < sz && err == nil ==> ret0 == nil
+    ensures[prefix]  err == nil && ret0 != nil ==> livePrefix(l, ret0)
+    // the bound holds afterwards unless everything is selected
+    ensures[stop]    err == nil && ret0 != nil ==>
+                         gTotal[l] - sumSize(l, domain(ret0)) < sz || (forall o int64 :: gLive[l][o] ==> has(ret0, o))
+    // not more than needed: without the newest selected message the bound would not hold
+    ensures[minimal] err == nil && ret0 != nil ==>
+                         forall o int64 :: has(ret0, o) && (forall p int64 :: has(ret0, p) ==> p <= o) ==>
+                             gTotal[l] - sumSize(l, domain(ret0)) + gSize[l][o] >= sz
+    loop 1
+      invariant[nonnil]  offsets != nil && maxOffset == gNext[l]
+      invariant[cursor]  offset == message.OffsetOldest || offset >= 0
+      invariant[sum]     total == gTotal[l] - sumSize(l, domain(offsets))
+      invariant[prefix]  livePrefix(l, offsets)
+      invariant[set]     total >= sz ==> (forall o int64 :: has(offsets, o) <==> gLive[l][o] && offset != message.OffsetOldest && o < offset)
+      invariant[minimal] forall o int64 :: has(offsets, o) && (forall p int64 :: has(offsets, p) ==> p <= o) ==> total + gSize[l][o] >= sz
+    loop 2
+      invariant[idx]     -1 <= rangeindex && rangeindex < len(msgs)
+      invariant[nonnil]  offsets != nil
+      invariant[sum]     total >= sz && total == gTotal[l] - sumSize(l, domain(offsets))
+      invariant[set]     forall o int64 :: has(offsets, o) <==> gLive[l][o]
+                             && o < ite(rangeindex + 1 < len(msgs), msgs[rangeindex+1].Offset, offset)
+      invariant[minimal] forall o int64 :: has(offsets, o) && (forall p int64 :: has(offsets, p) ==> p <= o) ==> total + gSize[l][o] >= sz
 
 @*/
